@@ -5,35 +5,35 @@
 (* (SignedAsEntry::validate_signature, SignedMessage::validate,               *)
 (* SignedMessage::decode_validated).  Events (ndjson, file named by TRACE):   *)
 (*   {"ev":"meta",..}                                     first line          *)
-(*   {"ev":"reset","n":n0}                 fresh honest segment of n0 entries *)
+(*   {"ev":"reset","n":n0,"v":0|1}         fresh honest segment of n0 entries *)
 (*   {"ev":"tamper","op","a","b"}          b = concrete bit offset for flips  *)
 (*   {"ev":"validate","conv":"ok|err|panic","len","vs":[bool],"vm":[bool],"dv":[bool]} *)
 EXTENDS SignedSegment, Json, IOUtils
 
 Rec == ndJsonDeserialize(IOEnv.TRACE)
 
-VARIABLES l, n0, seg, res, obs
+VARIABLES l, n0, vt, seg, res, obs
 
-tvars == <<l, n0, seg, res, obs>>
+tvars == <<l, n0, vt, seg, res, obs>>
 
 NoObs == [conv |-> "none"]
 
-TInit == /\ l = 2 /\ n0 = 1 /\ seg = Base(1) /\ res = HonestResolve(1) /\ obs = NoObs
+TInit == /\ l = 2 /\ n0 = 1 /\ vt = 0 /\ seg = Base(1) /\ res = HonestResolve(1) /\ obs = NoObs
 
 TReset == /\ l <= Len(Rec) /\ Rec[l].ev = "reset"
-          /\ Rec[l].n \in 1..NMAX
-          /\ n0' = Rec[l].n /\ seg' = Base(Rec[l].n) /\ res' = HonestResolve(Rec[l].n)
+          /\ Rec[l].n \in 1..NMAX /\ Rec[l].v \in 0..1 /\ (Rec[l].v = 1 => Rec[l].n >= 3)
+          /\ n0' = Rec[l].n /\ vt' = Rec[l].v /\ seg' = BaseV(Rec[l].n, Rec[l].v) /\ res' = HonestResolve(Rec[l].n)
           /\ obs' = NoObs /\ l' = l + 1
 
 TTamper == /\ l <= Len(Rec) /\ Rec[l].ev = "tamper"
            /\ LET t == [op |-> Rec[l].op, a |-> Rec[l].a, b |-> Rec[l].b] IN
               /\ t.op \in OpNames
               /\ Applicable(t, Len(seg.es), n0, 64)
-              /\ LET r == Apply(t, seg, res, n0) IN seg' = r.seg /\ res' = r.res
-           /\ obs' = NoObs /\ l' = l + 1 /\ UNCHANGED n0
+              /\ LET r == Apply(t, seg, res, n0, vt) IN seg' = r.seg /\ res' = r.res
+           /\ obs' = NoObs /\ l' = l + 1 /\ UNCHANGED <<n0, vt>>
 
 TValidate == /\ l <= Len(Rec) /\ Rec[l].ev = "validate"
-             /\ obs' = Rec[l] /\ l' = l + 1 /\ UNCHANGED <<n0, seg, res>>
+             /\ obs' = Rec[l] /\ l' = l + 1 /\ UNCHANGED <<n0, vt, seg, res>>
 
 TNext == TReset \/ TTamper \/ TValidate
 TSpec == TInit /\ [][TNext]_tvars
